@@ -1053,7 +1053,12 @@ class HttpPayloadParser:
                     if pos >= 0:
                         # Only chunk-size lines reach here; trailers enforce
                         # _max_field_size separately in PARSE_TRAILERS below.
-                        if pos > self._max_line_size:
+                        line_len = pos
+                        if SEP == b"\n" and chunk.endswith(b"\r", 0, pos):
+                            # For lax response parsing: the CR belongs to the
+                            # line ending, not to the line.
+                            line_len -= 1
+                        if line_len > self._max_line_size:
                             raise LineTooLong(chunk[:100] + b"...", self._max_line_size)
                         i = chunk.find(CHUNK_EXT, 0, pos)
                         if i >= 0:
